@@ -61,7 +61,9 @@ EntTxMarks(s, ev, t, ok) ==
   \cup If(AnyMsg(ev, LAMBDA m : m.t = "Whitelist" /\ m.signer \in s.aux.exsig /\ m.addr \in DOMAIN s.ent.wl
                                /\ (m.act = "add") = ~s.ent.wl[m.addr]), "whitelist:by-removed-signer")
   \cup If(ok /\ AnyMsg(ev, LAMBDA m : m.t \in {"Decide", "Whitelist"} /\ ~Contains(s.ent.p.signers, m.signer)), "ent:accepted-from-non-signer")
-  \cup If(AnyMsg(ev, LAMBDA m : m.t = "Decide" /\ PoExists(s, m.id) /\ PoOf(s, m.id).st # "raised" /\ IsSigner(s, m.signer)), "decide:on-closed")
+  \cup UNION { If(AnyMsg(ev, LAMBDA m : m.t = "Decide" /\ PoExists(s, m.id) /\ PoOf(s, m.id).st = x /\ IsSigner(s, m.signer)
+                                       /\ ~\E j \in DOMAIN PoOf(s, m.id).dec : PoOf(s, m.id).dec[j].s = m.signer), "decide:on-" \o x)
+               : x \in {"accepted", "rejected", "completed"} }
   \cup If(AnyMsg(ev, LAMBDA m : m.t = "Raise" /\ m.pur \in DOMAIN s.ent.wl /\ ~s.ent.wl[m.pur]
                                /\ \E i \in DOMAIN s.ent.po : s.ent.po[i].pur = m.pur), "raise:after-delisting")
   \cup If(ok /\ AnyMsg(ev, LAMBDA m : m.t = "Whitelist" /\ m.act = "remove" /\ \E i \in RaisedIdx(s) \cup AcceptedIdx(s) : s.ent.po[i].pur = m.addr),
@@ -125,6 +127,9 @@ RegTxMarksK(s, ev, t, ok, k) ==
      \cup If(~ok /\ Len(ev.msgs) > 1 /\ ev.msgs[1].t = (IF k = "wrk" THEN "WReg" ELSE "BReg") /\ t.wrk.next = s.wrk.next /\ t.bcn.next = s.bcn.next, L("reg:registration-rolled-back"))
      \cup If(Cardinality({ j \in DOMAIN MsgsOf(ev) : IsRec(MsgsOf(ev)[j]) }) >= 2 /\ ok, L("rec:two-in-one-tx"))
      \cup If(Cardinality({ j \in DOMAIN MsgsOf(ev) : IsBuy(MsgsOf(ev)[j]) }) >= 2, L("buy:two-in-one-tx"))
+     \cup If(~SlotsOk(s, ev.msgs, k) /\ \A j \in DOMAIN ev.msgs : (IsBuy(ev.msgs[j]) /\ ChOk(k, ev.msgs[j])) => ev.msgs[j].n <= Remaining(s[k].p, C(ev.msgs[j]).limit),
+             L("buy:each-within-the-limit-sum-above-it"))
+     \cup If(AnyMsg(ev, LAMBDA m : IsBuy(m) /\ ~ChOk(k, m) /\ m.n <= s[k].p.max - s[k].p.def), L("buy:unregistered-id"))
      \cup If(ok /\ HasMsg(ev, {IF k = "wrk" THEN "WReg" ELSE "BReg"}) /\ Len(s[k].ch) >= 1 /\ s[k].ch[Len(s[k].ch)].owner # ev.msgs[1].owner, L("reg:second-owner"))
 
 RegTxMarks(s, ev, t, ok) == RegTxMarksK(s, ev, t, ok, "wrk") \cup RegTxMarksK(s, ev, t, ok, "bcn")
@@ -225,14 +230,15 @@ AllLabels == <<
   "tally:accepted-with-former-signer-decision", "tally:rejected-with-former-signer-decision", "tally:open-with-former-signer-decision",
   "tally:more-decisions-than-signers", "tally:two-closed", "complete:two", "complete+accept-same-block", "complete:on-top-of-locked",
   "complete:after-spending", "complete:vesting-purchaser", "complete:purchaser-delisted",
-  "decide:by-former-signer", "decide:after-signer-change", "decide:twice", "decide:on-closed", "raise:after-delisting",
+  "decide:by-former-signer", "decide:after-signer-change", "decide:twice", "decide:on-accepted", "decide:on-rejected", "decide:on-completed", "raise:after-delisting",
   "whitelist:remove-with-open-order", "gov:proposal-with-raised-order",
   "unlock:partial+others-locked", "unlock:partial-alone", "unlock:part-of-locked+others-locked", "unlock:exactly-all",
   "unlock:refused-or-rolled-back", "unlock:kept-though-message-failed", "unlock:fee-with-extra-denomination", "unlock:vesting-payer",
   "fee:non-registry-tx-of-locked-holder", "exec:nested-registry-op", "send:to-escrow", "multi:later-message-fails-after-unlock",
   "wrk:rec:prune-at-default-limit", "bcn:rec:prune-at-default-limit", "wrk:rec:prune-at-raised-limit", "bcn:rec:prune-at-raised-limit", "wrk:rec:limit-above-lowered-max", "bcn:rec:limit-above-lowered-max", "wrk:rec:refill-after-purchase", "bcn:rec:refill-after-purchase", "wrk:rec:huge-height", "bcn:rec:huge-height",
   "wrk:rec:after-huge-height", "bcn:rec:after-huge-height", "wrk:rec:same-height-again", "bcn:rec:same-height-again", "wrk:rec:pruned-height-again", "bcn:rec:pruned-height-again", "wrk:reg:write-by-stranger", "bcn:reg:write-by-stranger", "wrk:buy:exactly-to-max", "bcn:buy:exactly-to-max", "wrk:buy:over-max", "bcn:buy:over-max",
-  "wrk:buy:huge", "bcn:buy:huge", "wrk:buy:limit-above-lowered-max", "bcn:buy:limit-above-lowered-max", "wrk:reg:registration-rolled-back", "bcn:reg:registration-rolled-back", "wrk:rec:two-in-one-tx", "bcn:rec:two-in-one-tx", "wrk:buy:two-in-one-tx", "bcn:buy:two-in-one-tx", "wrk:reg:second-owner", "bcn:reg:second-owner",
+  "wrk:buy:huge", "bcn:buy:huge", "wrk:buy:limit-above-lowered-max", "bcn:buy:limit-above-lowered-max", "wrk:reg:registration-rolled-back", "bcn:reg:registration-rolled-back", "wrk:rec:two-in-one-tx", "bcn:rec:two-in-one-tx", "wrk:buy:two-in-one-tx", "bcn:buy:two-in-one-tx", "wrk:reg:second-owner", "bcn:reg:second-owner", "wrk:buy:each-within-the-limit-sum-above-it", "bcn:buy:each-within-the-limit-sum-above-it",
+  "wrk:buy:unregistered-id", "bcn:buy:unregistered-id",
   "release:fee-100-percent", "release:fee-zero", "claim:at-or-after-zero-time", "claim:sub-second", "claim:fractional-seconds", "claim:drained",
   "rate:live-with-elapsed-seconds", "rate:expired", "rate:drained", "topup:live-with-elapsed-seconds", "topup:expired-with-remainder",
   "topup:drained", "cancel:live-with-elapsed-seconds", "cancel:expired", "cancel:drained", "create:second-stream-same-denomination",
